@@ -68,5 +68,32 @@ package types
 //@   props C19
 //@   plain
 //@   ghost siblings struct{Siblings []string}
+//@   modifies m.Hash
 //@   ensures isnil(err)
 //@   ensures len(m.Hash) == len(siblings.Siblings) && forall(k, 0, len(m.Hash), m.Hash[k] == siblings.Siblings[k])
+
+// the readers decode into a fresh local structure and return it; they write nothing else (frame obligation: no
+// package-level state, nothing reachable from the arguments) - what encoding/json puts into the structure is assumed
+//@ func ReadProofWithPublicInputsFromRequest(data []byte) (res ProofWithPublicInputsRaw)
+//@   props C19
+//@   plain
+//@   ghost raw ProofWithPublicInputsRaw
+//@   ensures len(res.PublicInputs) == len(raw.PublicInputs) && len(res.Proof.WiresCap) == len(raw.Proof.WiresCap)
+
+//@ func ReadVerifierOnlyCircuitDataFromRequest(data []byte) (res VerifierOnlyCircuitDataRaw)
+//@   props C19
+//@   plain
+//@   ghost raw VerifierOnlyCircuitDataRaw
+//@   ensures res.CircuitDigest == raw.CircuitDigest && len(res.ConstantsSigmasCap) == len(raw.ConstantsSigmasCap)
+
+//@ func ReadProofWithPublicInputs(path string) (res ProofWithPublicInputsRaw)
+//@   props C19
+//@   plain
+//@   ghost raw ProofWithPublicInputsRaw
+//@   ensures len(res.PublicInputs) == len(raw.PublicInputs) && len(res.Proof.WiresCap) == len(raw.Proof.WiresCap)
+
+//@ func ReadVerifierOnlyCircuitData(path string) (res VerifierOnlyCircuitDataRaw)
+//@   props C19
+//@   plain
+//@   ghost raw VerifierOnlyCircuitDataRaw
+//@   ensures res.CircuitDigest == raw.CircuitDigest && len(res.ConstantsSigmasCap) == len(raw.ConstantsSigmasCap)
